@@ -605,6 +605,14 @@ class Executor(object):
             self.ui.error(msg, run_id, cmdline, location, env)
             run_id.report_run_failed(cmdline, 0, output)
             return True
+        except UnicodeError as err:
+            # the command line, working directory or environment cannot be encoded
+            # for the operating system, for instance non-ASCII text in the C locale
+            run_id.fail_immediately()
+            self.ui.error("{ind}Failed executing run\n{ind}{ind}It failed with: %s.\n"
+                          % escape_braces(str(err)), run_id, cmdline, location, env)
+            run_id.report_run_failed(cmdline, 0, output)
+            return True
 
         if return_code == 127:
             run_id.fail_immediately()
